@@ -2,8 +2,8 @@ package main
 
 import (
 	"encoding/hex"
-	"os"
 	"fmt"
+	"os"
 	"strconv"
 	"strings"
 )
